@@ -167,8 +167,12 @@ func genImportFile(t *tape.Tape, cls string, pkg string) ImportFile {
 	if t.Bool(1, 4) {
 		// a licence header: shifts every line number
 		add("/*")
-		for k := 0; k < t.Int(1, 4); k++ {
-			add(" * licence line")
+		nl := t.Int(1, 4)
+		if t.Bool(1, 6) {
+			nl = t.Int(90, 140) // a long licence text: the first import lies beyond the first 4 KiB of the file
+		}
+		for k := 0; k < nl; k++ {
+			add(" * licence line: permission is hereby granted, free of charge")
 		}
 		add(" */")
 	}
